@@ -150,7 +150,9 @@ def configs(tier, seed):
                                 max_exec=150 if tier == "quick" else 2500, **{"async": True}))
     # the real simulator backend (tables, delays, outside-time choices): a sample of the C10 configurations
     from . import c10
-    sims = c10.configs(tier, seed)
+    # (without the busy-query configurations of C10: with start_jobs_without_delay=False the simulator only counts a trial as
+    # busy once its start event has been processed - observed, not triaged, see DESIGN 6.3)
+    sims = [c for c in c10.configs(tier, seed) if c.get("nodelay", True)]
     for i, c in enumerate(sims):
         if i % (3 if tier == "quick" else 2) == 0:
             out.append(dict(c, sim=True, max_exec=40 if tier == "quick" else 600))
